@@ -247,6 +247,7 @@ def write_replay(prop, kind, payload):
     os.makedirs(os.path.join(ROOT, "replays"), exist_ok=True)
     path = os.path.join(ROOT, "replays", f"{prop}-{kind}-{int(time.time())}.json")
     payload = dict(payload, property=prop, kind=kind, repo=REPO)
+    payload.setdefault("seed", int(os.environ.get("VERIF_SEED", "1")))
     with open(path, "w") as f:
         json.dump(payload, f, indent=1)
     return path
@@ -417,7 +418,24 @@ def replay(path):
         fails, perr, summ = run_monitors(prop, tpath, PROPS[prop]["monitors"])
         print("replayed on the current tree:", summ, "fails:", fails)
         return 1 if fails else 0
-    return 0
+    fi = r.get("failing_input") if isinstance(r.get("failing_input"), dict) else None
+    if r.get("kind") == "history-failure" and fi and fi.get("script"):
+        # a multi-actor history: run the recorded program on the current tree and replay it on the protocol model
+        from extra import build_feat
+        ctx = dict(ROOT=ROOT, REPO=REPO, BUILD=BUILD, DRIVER=DRIVER, HARNESS=HARNESS, sh=sh, Infra=Infra, build_harness=build_harness)
+        bindir = build_feat(ctx)
+        p = os.path.join(BUILD, "replay.net")
+        open(p, "w").write("\n".join(fi["script"]) + "\n")
+        rep = os.path.join(BUILD, "replay_net.json")
+        rc, out, err = sh([os.path.join(bindir, "netcorr"), "--driver", DRIVER, "--replay", p, "--report", rep])
+        rr = json.load(open(rep))
+        print("replayed on the current tree:", rr["summary"], "fails:", [f["fail"] for f in rr["failing"]][:3])
+        return 1 if rr["fails"] else 0
+    # every other kind (stress / tables / corpus / cross-build engines, broken ties): the engines are
+    # deterministic functions of the seed, so the replay is the property's quick check under the recorded seed
+    os.environ["VERIF_SEED"] = str(r.get("seed", os.environ.get("VERIF_SEED", "1")))
+    print(f"replay = quick check of {prop} with VERIF_SEED={os.environ['VERIF_SEED']} on the current tree")
+    return check(prop, "quick")
 
 
 def main():
